@@ -738,7 +738,7 @@ fn c01_expand(white: bool) {
     core::mem::forget(board);
 }
 
-/// C01.slider / A1.slider (k-piece shape): colour c has its king and up to 3 further pieces of symbolic
+/// C01.slider / A1.slider (k-piece shape): colour c has its king and up to 2 further pieces of symbolic
 /// kind on symbolic squares; the opponent's side is fully symbolic. Lookups are uninterpreted per-square
 /// functions R[sq], B[sq]. Emitted: (sq, (R|B|R∪B)[sq] & !own) for exactly c's rooks/bishops/queens.
 fn c01_slider(white: bool) {
@@ -749,7 +749,7 @@ fn c01_slider(white: bool) {
     kani::assume(ksq < 64);
     own[rf::K] = rf::bit(ksq);
     let mut i = 0;
-    while i < 3 {
+    while i < 2 {
         let present: bool = crate::verif_ref::vany();
         let sq: u8 = crate::verif_ref::vany();
         let kind: u8 = crate::verif_ref::vany();
